@@ -12,6 +12,7 @@ import (
 	"net"
 	"reflect"
 	"regexp"
+	"sync"
 	"unsafe"
 
 	"github.com/go-kit/log"
@@ -120,44 +121,233 @@ func vIntMap(m reflect.Value, what string) (map[string]int64, bool) {
 	return out, true
 }
 
+// ---- by-TYPE access: the harness never names the fields that hold the responders, the queue, the
+// logger.  It finds them by their type, also one level inside a struct (value or pointer) that is the
+// element of a map / slice field of Announce (e.g. map[int]*linkResponders{arp, ndp}).
+
+// vWritable returns a settable view of an addressable (possibly unexported) value
+func vWritable(f reflect.Value) reflect.Value {
+	return reflect.NewAt(f.Type(), unsafe.Pointer(f.UnsafeAddr())).Elem()
+}
+
+// vFill stores every value of vals into the first still-zero field of *p it is assignable to
+// (fields are told apart by TYPE).  Returns the values that found no field.
+func vFill(p any, vals ...any) (missing []string) {
+	v := reflect.ValueOf(p).Elem()
+	for _, x := range vals {
+		xv := reflect.ValueOf(x)
+		if xv.Kind() == reflect.Ptr && xv.Elem().Kind() == reflect.Interface { // *I: an interface value passed by pointer
+			xv = xv.Elem()
+		}
+		done := false
+		for i := 0; i < v.NumField() && !done; i++ {
+			f := v.Field(i)
+			if f.Type() == xv.Type() && f.IsZero() {
+				vWritable(f).Set(xv)
+				done = true
+			}
+		}
+		if !done {
+			missing = append(missing, xv.Type().String())
+		}
+	}
+	return
+}
+
+// vFieldOfType returns the first field of *p whose type is t (invalid Value when there is none)
+func vFieldOfType(p any, t reflect.Type) reflect.Value {
+	v := reflect.ValueOf(p).Elem()
+	for i := 0; i < v.NumField(); i++ {
+		if v.Field(i).Type() == t {
+			return v.Field(i)
+		}
+	}
+	return reflect.Value{}
+}
+
+// vCollect appends to out every non-nil pointer of type t reachable from the fields of *a: a field
+// of type t, a map / slice whose elements are t, or are structs / pointers to structs with a field of type t
+func vCollect(a *Announce, t reflect.Type) []unsafe.Pointer {
+	var out []unsafe.Pointer
+	add := func(x reflect.Value) {
+		if x.Type() == t && !x.IsNil() {
+			out = append(out, x.UnsafePointer())
+		}
+	}
+	elem := func(e reflect.Value) {
+		if e.Type() == t {
+			add(e)
+			return
+		}
+		if e.Kind() == reflect.Ptr {
+			if e.IsNil() {
+				return
+			}
+			e = e.Elem()
+		}
+		if e.Kind() == reflect.Struct {
+			for i := 0; i < e.NumField(); i++ {
+				if e.Field(i).Type() == t {
+					add(e.Field(i))
+				}
+			}
+		}
+	}
+	v := reflect.ValueOf(a).Elem()
+	for i := 0; i < v.NumField(); i++ {
+		f := v.Field(i)
+		switch {
+		case f.Type() == t:
+			add(f)
+		case f.Kind() == reflect.Map:
+			it := f.MapRange()
+			for it.Next() {
+				elem(it.Value())
+			}
+		case f.Kind() == reflect.Slice:
+			for k := 0; k < f.Len(); k++ {
+				elem(f.Index(k))
+			}
+		}
+	}
+	return out
+}
+
+// vAttach stores the responder r (a *arpResponder / *ndpResponder) under the interface index where the
+// announcer keeps such responders: a map with an integer key whose element is r's type, or a struct /
+// pointer to struct with a field of r's type (the entry is created when absent); or a slice of r's type.
+func vAttach(a *Announce, index int, r any) bool {
+	rv := reflect.ValueOf(r)
+	t := rv.Type()
+	slot := func(st reflect.Type) int { // index of the field of type t in struct type st, -1
+		if st.Kind() != reflect.Struct {
+			return -1
+		}
+		for i := 0; i < st.NumField(); i++ {
+			if st.Field(i).Type == t {
+				return i
+			}
+		}
+		return -1
+	}
+	v := reflect.ValueOf(a).Elem()
+	for i := 0; i < v.NumField(); i++ {
+		f := v.Field(i)
+		switch f.Kind() {
+		case reflect.Slice:
+			if f.Type().Elem() == t {
+				w := vWritable(f)
+				w.Set(reflect.Append(w, rv))
+				return true
+			}
+		case reflect.Map:
+			kt, et := f.Type().Key(), f.Type().Elem()
+			if !reflect.TypeOf(index).ConvertibleTo(kt) || kt.Kind() == reflect.String {
+				continue
+			}
+			key := reflect.ValueOf(index).Convert(kt)
+			w := vWritable(f)
+			if w.IsNil() {
+				w.Set(reflect.MakeMap(f.Type()))
+			}
+			switch {
+			case et == t:
+				w.SetMapIndex(key, rv)
+				return true
+			case et.Kind() == reflect.Ptr && slot(et.Elem()) >= 0:
+				e := w.MapIndex(key)
+				if !e.IsValid() || e.IsNil() {
+					e = reflect.New(et.Elem())
+					w.SetMapIndex(key, e)
+				}
+				vWritable(e.Elem().Field(slot(et.Elem()))).Set(rv)
+				return true
+			case slot(et) >= 0:
+				e := reflect.New(et).Elem()
+				if old := w.MapIndex(key); old.IsValid() {
+					e.Set(old)
+				}
+				vWritable(e.Field(slot(et))).Set(rv)
+				w.SetMapIndex(key, e)
+				return true
+			}
+		}
+	}
+	VerifSkipped["attach:"+t.String()] = true
+	return false
+}
+
+// what the harness attached itself: responders and the sockets it opened for them, by announcer
+type vAttached struct {
+	arps    map[int]*arpResponder
+	ndps    map[int]*ndpResponder
+	closers []interface{ Close() error }
+}
+
+var (
+	vAttMu sync.Mutex
+	vAtt   = map[*Announce]*vAttached{}
+)
+
+func vAttOf(a *Announce) *vAttached {
+	vAttMu.Lock()
+	defer vAttMu.Unlock()
+	x := vAtt[a]
+	if x == nil {
+		x = &vAttached{arps: map[int]*arpResponder{}, ndps: map[int]*ndpResponder{}}
+		vAtt[a] = x
+	}
+	return x
+}
+
 // VerifNew returns an announcer that owns no goroutine: the fields New() initialises (maps,
 // the queue towards the spam loop) are initialised by kind, not by type. SetBalancer queues the
-// advertisement on spamCh (capacity 1<<16); the caller drains it with VerifDrainSpam.
+// advertisement on the spam queue (capacity 1<<16); the caller drains it with VerifDrainSpam.
 func VerifNew(l log.Logger, nodeInterfaces []string) *Announce {
 	return VerifNewQueue(l, nodeInterfaces, 1<<16)
 }
 
 // VerifNewQueue builds the announcer as New() does, with the given capacity of the queue towards
 // the gratuitous loop (production: 1024), WITHOUT interfaceScan (no raw sockets). The REAL
-// spamLoop is started by VerifStartSpamLoop: SetBalancer -> doSpam -> spamCh -> spamLoop ->
+// spamLoop is started by VerifStartSpamLoop: SetBalancer -> doSpam -> queue -> spamLoop ->
 // gratuitous is the production code path.
 func VerifNewQueue(l log.Logger, nodeInterfaces []string, capacity int) *Announce {
 	if l == nil {
 		l = log.NewNopLogger()
 	}
 	a := &Announce{}
-	vSet(a, "logger", reflect.ValueOf(&l).Elem())
-	vSet(a, "nodeInterfaces", reflect.ValueOf(append([]string{}, nodeInterfaces...)))
+	for _, m := range vFill(a, &l, append([]string{}, nodeInterfaces...)) {
+		VerifSkipped["new:"+m] = true
+	}
 	vInit(a, capacity)
 	return a
 }
 
 // VerifExclude sets the announcer's interface exclusion expression (New()'s second argument).
-func (a *Announce) VerifExclude(re *regexp.Regexp) bool { return vSet(a, "excludeRegexp", reflect.ValueOf(re)) }
+func (a *Announce) VerifExclude(re *regexp.Regexp) bool {
+	f := vFieldOfType(a, reflect.TypeOf(re))
+	if !f.IsValid() {
+		VerifSkipped["set:excludeRegexp"] = true
+		return false
+	}
+	vWritable(f).Set(reflect.ValueOf(re))
+	return true
+}
 
 // VerifUpdateInterfaces runs the REAL interface rescan once (it opens raw ARP / ICMPv6 sockets on
 // the interfaces that are not excluded and starts their responders).
 func (a *Announce) VerifUpdateInterfaces() { a.updateInterfaces() }
 
-// VerifResponders returns the interface names that have an ARP / an NDP responder.
+// VerifResponders returns the interface names that have an ARP / an NDP responder, wherever the
+// announcer keeps them (found by type).
 func (a *Announce) VerifResponders() (arps, ndps []string) {
 	a.RLock()
 	defer a.RUnlock()
-	for _, r := range a.arps {
-		arps = append(arps, r.Interface())
+	for _, p := range vCollect(a, reflect.TypeOf((*arpResponder)(nil))) {
+		arps = append(arps, (*arpResponder)(p).Interface())
 	}
-	for _, r := range a.ndps {
-		ndps = append(ndps, r.Interface())
+	for _, p := range vCollect(a, reflect.TypeOf((*ndpResponder)(nil))) {
+		ndps = append(ndps, (*ndpResponder)(p).Interface())
 	}
 	return
 }
@@ -165,12 +355,19 @@ func (a *Announce) VerifResponders() (arps, ndps []string) {
 // VerifStartSpamLoop starts the real spam loop goroutine (it never terminates).
 func (a *Announce) VerifStartSpamLoop() { go a.spamLoop() }
 
-// VerifDrainSpam removes and returns what SetBalancer queued for the spam loop.
+// VerifDrainSpam removes and returns what SetBalancer queued for the spam loop (the channel of
+// advertisements, found by type).
 func (a *Announce) VerifDrainSpam() []IPAdvertisement {
 	var out []IPAdvertisement
+	f := vFieldOfType(a, reflect.TypeOf((chan IPAdvertisement)(nil)))
+	if !f.IsValid() {
+		VerifSkipped["spam-queue"] = true
+		return nil
+	}
+	ch := *(*chan IPAdvertisement)(unsafe.Pointer(f.UnsafeAddr()))
 	for {
 		select {
-		case s := <-a.spamCh:
+		case s := <-ch:
 			out = append(out, s)
 		default:
 			return out
@@ -187,7 +384,7 @@ func (a *Announce) VerifShouldAnnounce(ip net.IP, intf string) int {
 func (a *Announce) VerifGratuitous(adv IPAdvertisement) { a.gratuitous(adv) }
 
 // VerifRefcnt returns ipRefcnt keyed by the canonical address text (a missing entry is 0 for
-// the caller); ok=false when the field cannot be read that way on this tree.
+// the caller, entries equal to 0 are dropped); ok=false when the field cannot be read that way on this tree.
 func (a *Announce) VerifRefcnt() (map[string]int, bool) {
 	a.RLock()
 	defer a.RUnlock()
@@ -197,7 +394,9 @@ func (a *Announce) VerifRefcnt() (map[string]int, bool) {
 	}
 	out := map[string]int{}
 	for k, v := range m {
-		out[k] = int(v)
+		if v != 0 {
+			out[k] = int(v)
+		}
 	}
 	return out, true
 }
@@ -218,12 +417,21 @@ func (a *Announce) VerifServices() []string {
 	return out
 }
 
-// VerifIP returns the advertisement's address.
-func (i IPAdvertisement) VerifIP() net.IP { return i.ip }
+// VerifIP returns the advertisement's address (the net.IP field, found by type).
+func (i IPAdvertisement) VerifIP() net.IP {
+	v := reflect.ValueOf(&i).Elem()
+	for k := 0; k < v.NumField(); k++ {
+		if v.Field(k).Type() == reflect.TypeOf(net.IP(nil)) {
+			return *(*net.IP)(unsafe.Pointer(v.Field(k).UnsafeAddr()))
+		}
+	}
+	VerifSkipped["adv-ip"] = true
+	return nil
+}
 
-// VerifAddARP attaches an ARP responder for interface name intf (map key
-// index) with hardware address mac, reading and writing on pc. No goroutine
-// is started; VerifARPProcess handles exactly one packet.
+// VerifAddARP attaches an ARP responder for interface name intf (interface index index) with
+// hardware address mac, reading and writing on pc. No goroutine is started; VerifARPProcess
+// handles exactly one packet.  The responder's fields are filled by TYPE.
 func (a *Announce) VerifAddARP(index int, intf string, mac net.HardwareAddr, pc net.PacketConn) error {
 	c, err := arp.New(&net.Interface{Index: 1<<20 + index, Name: intf, HardwareAddr: mac, MTU: 1500}, pc)
 	if err != nil {
@@ -231,22 +439,34 @@ func (a *Announce) VerifAddARP(index int, intf string, mac net.HardwareAddr, pc 
 	}
 	a.Lock()
 	defer a.Unlock()
-	a.arps[index] = &arpResponder{
-		logger:       a.logger,
-		intf:         intf,
-		hardwareAddr: mac,
-		conn:         c,
-		closed:       make(chan struct{}),
-		announce:     a.shouldAnnounce,
+	r := &arpResponder{}
+	lg := a.vLogger()
+	if miss := vFill(r, &lg, intf, mac, c, make(chan struct{}), announceFunc(a.shouldAnnounce)); len(miss) > 0 {
+		return fmt.Errorf("arpResponder has no field for %v on this tree", miss)
 	}
+	vInit(r, -1)
+	if !vAttach(a, index, r) {
+		return fmt.Errorf("the announcer has no place for a *arpResponder on this tree")
+	}
+	x := vAttOf(a)
+	x.arps[index] = r
+	x.closers = append(x.closers, c)
 	return nil
 }
 
-// VerifARPProcess runs arpResponder.processRequest once on responder index.
+func (a *Announce) vLogger() log.Logger {
+	f := vFieldOfType(a, reflect.TypeOf((*log.Logger)(nil)).Elem())
+	if f.IsValid() && !f.IsNil() {
+		return *(*log.Logger)(unsafe.Pointer(f.UnsafeAddr()))
+	}
+	return log.NewNopLogger()
+}
+
+// VerifARPProcess runs arpResponder.processRequest once on the responder attached under index.
 func (a *Announce) VerifARPProcess(index int) int {
-	a.RLock()
-	r := a.arps[index]
-	a.RUnlock()
+	vAttMu.Lock()
+	r := vAtt[a].arps[index]
+	vAttMu.Unlock()
 	return int(r.processRequest())
 }
 
@@ -259,16 +479,20 @@ func (a *Announce) VerifAddNDP(index int, intf string, ifi *net.Interface) error
 	}
 	a.Lock()
 	defer a.Unlock()
-	r := &ndpResponder{
-		logger:       a.logger,
-		intf:         intf,
-		hardwareAddr: ifi.HardwareAddr,
-		conn:         conn,
-		closed:       make(chan struct{}),
-		announce:     a.shouldAnnounce,
+	r := &ndpResponder{}
+	lg := a.vLogger()
+	if miss := vFill(r, &lg, intf, ifi.HardwareAddr, conn, make(chan struct{}), announceFunc(a.shouldAnnounce)); len(miss) > 0 {
+		conn.Close()
+		return fmt.Errorf("ndpResponder has no field for %v on this tree", miss)
 	}
 	vInit(r, -1) // the group counters, whatever their key type
-	a.ndps[index] = r
+	if !vAttach(a, index, r) {
+		conn.Close()
+		return fmt.Errorf("the announcer has no place for a *ndpResponder on this tree")
+	}
+	x := vAttOf(a)
+	x.ndps[index] = r
+	x.closers = append(x.closers, conn)
 	return nil
 }
 
@@ -277,17 +501,41 @@ func (a *Announce) VerifAddNDP(index int, intf string, ifi *net.Interface) error
 func (a *Announce) VerifNDPGroups(index int) (map[string]int64, bool) {
 	a.RLock()
 	defer a.RUnlock()
-	return vIntMap(vField(a.ndps[index], "solicitedNodeGroups"), "solicitedNodeGroups")
+	vAttMu.Lock()
+	r := vAtt[a].ndps[index]
+	vAttMu.Unlock()
+	return vIntMap(vField(r, "solicitedNodeGroups"), "solicitedNodeGroups")
 }
 
-// VerifClose closes the sockets of the attached responders.
+// VerifClose closes the sockets of the responders the harness attached, and those of the responders
+// the real interface rescan created (found by type; their Close method).
 func (a *Announce) VerifClose() {
 	a.Lock()
 	defer a.Unlock()
-	for _, r := range a.ndps {
-		r.conn.Close()
+	vAttMu.Lock()
+	x := vAtt[a]
+	delete(vAtt, a)
+	vAttMu.Unlock()
+	mine := map[unsafe.Pointer]bool{}
+	if x != nil {
+		for _, c := range x.closers {
+			c.Close()
+		}
+		for _, r := range x.arps {
+			mine[unsafe.Pointer(r)] = true
+		}
+		for _, r := range x.ndps {
+			mine[unsafe.Pointer(r)] = true
+		}
 	}
-	for _, r := range a.arps {
-		r.conn.Close()
+	for _, p := range vCollect(a, reflect.TypeOf((*ndpResponder)(nil))) {
+		if !mine[p] {
+			(*ndpResponder)(p).Close()
+		}
+	}
+	for _, p := range vCollect(a, reflect.TypeOf((*arpResponder)(nil))) {
+		if !mine[p] {
+			(*arpResponder)(p).Close()
+		}
 	}
 }
